@@ -90,11 +90,9 @@ func c04Snapshot(inv *Invoice) *c04Snap {
 }
 
 func H_C04_Fixpoint() {
-	// quick: one line, tax-exclusive prices; thorough: 1..2 lines, tax-included prices by choice
-	o := skOpts{rule: skRule("rule"), cur: skCurrency(), lines: 1, fixedAtCur: false, rich: true, include: vrt.Thorough(), qexp: true}
-	if vrt.Thorough() {
-		o.lines = skLines()
-	}
+	// quick: one line, tax-exclusive prices, EUR; thorough: tax-included prices by choice, EUR and JPY, the larger
+	// alternatives of the skeleton (fixed charges, percentage advance alone, fixed amounts with two more decimals)
+	o := skOpts{rule: skRule("rule"), cur: skCurrency2(), lines: 1, fixedAtCur: false, rich: true, include: vrt.Thorough(), qexp: true}
 	inv := skInvoice(o)
 	finer := c04FixedFiner(inv, o.cur.Def().Subunits)
 	if calculate(inv) != nil {
